@@ -62,9 +62,38 @@ func runReplay(file string) int {
 		}
 	} else {
 		if hist > 0 {
-			infraf("history-dependent concurrency replays need the original pool; re-run the check with VERIF_SEED=%v", rec["seed"])
+			// the failure needs the process history: regenerate the op pool
+			// (a pure function of the seed), its solo references, and re-run
+			// the recorded suffix of the worker's stream in one fresh process
+			n := int(num(rec, "pool_n"))
+			poolFile := filepath.Join(b.Scratch, "pool.json")
+			r := runWorker(bin, []string{"genpool", "-seed", fmt.Sprint(rec["seed"]), "-n", fmt.Sprint(n)}, nil, 5*time.Minute)
+			os.WriteFile(poolFile, r.stdout, 0o644)
+			refs := filepath.Join(b.Scratch, "refs.json")
+			if err := soloRefs(bin, poolFile, n, refs, envf(filepath.Join(b.Scratch, "solo"))); err != nil {
+				infraf("%v", err)
+			}
+			idx := int(num(rec, "index"))
+			args := []string{"conc", "-config", cfg.Name, "-seed", fmt.Sprint(rec["seed"]), "-worker", fmt.Sprint(rec["worker"]), "-pool", poolFile, "-ref", refs,
+				"-from", fmt.Sprint(int(num(rec, "history_from"))), "-to", fmt.Sprint(idx + 1)}
+			if fu := int(num(rec, "history_firstuse")); fu >= 0 {
+				args = append(args, "-firstuse", fmt.Sprint(fu))
+			}
+			if f, _ := rec["family"].(string); f != "" {
+				args = append(args, "-family", f)
+			}
+			pfx := filepath.Join(b.Scratch, "race-replay")
+			r = runWorker(bin, args, envf(pfx), 60*time.Minute)
+			rep := readRaceLog(pfx)
+			switch {
+			case (r.exit == 66 || rep != "") && checkID == "conc-race":
+				reproduced, detail = true, rep
+			case r.exit == 1 && len(r.viols) > 0 && fmt.Sprint(r.viols[0]["check_id"]) == checkID:
+				reproduced, detail = true, fmt.Sprint(r.viols[0]["msg"])
+			}
+		} else {
+			reproduced, detail = replayEpisodeFile(b, bin, envf, file, checkID)
 		}
-		reproduced, detail = replayEpisodeFile(b, bin, envf, file, checkID)
 		if checkID == "conc-race" && reproduced {
 			detail = raceSites(detail) + "\n" + tail(normaliseRace(detail), 40)
 		}
